@@ -212,7 +212,9 @@ def points(tier: str) -> List[dict]:
         iso = []
         for c in range(30 if not th else 120):
             pr, pc, ps = (perm(n, gm) for _ in range(3))  # an isotope of the cyclic square: rows, columns, symbols permuted
-            iso.append([ps[(pr[i] + pc[j]) % n] for i in range(n) for j in range(n)])
+            x = [ps[(pr[i] + pc[j]) % n] for i in range(n) for j in range(n)]
+            if x not in iso:  # two draws may give the same square: a candidate offered twice is accepted twice
+                iso.append(x)
         P.append({"spec": {"model": "latin", "n": n, "fix_many": iso}, "by_validator": True})
     for v, b, r, k, l in ((3, 3, 2, 2, 1), (4, 6, 3, 2, 1), (4, 4, 3, 3, 2), (5, 5, 4, 4, 3), (3, 6, 4, 2, 2)):
         P.append({"spec": {"model": "bibd", "v": v, "b": b, "r": r, "k": k, "l": l, "sym": False, "brute": True}, "count": "brute"})
